@@ -36,7 +36,7 @@ def slogdet_stub(M):
     """(sign, log|det|) with log|det| = LOG(det) for a positive determinant."""
     d = stubs.det_exact(M)
     if isinstance(d, core.Sym):
-        return (1.0, core.SymReal(core.LOG(R(d))))
+        return (1.0, core.SymReal(core.log_term(R(d))))
     import math
     return (1.0 if d > 0 else -1.0, math.log(abs(d)))
 
@@ -50,3 +50,66 @@ def scaled_identity(c, n, name='t'):
     for i in range(n):
         M._b.data[i * n + i] = t
     return t, M
+
+
+class OpaqueLogDet:
+    """slogdet/det contract that keeps obligations *linear*: ln det M is an
+    opaque real symbol per (syntactically identified) matrix; det M is a fresh
+    positive symbol whose ln is that same symbol.  The same stub instance
+    serves the code under test and the harness's specification."""
+
+    def __init__(self, c, prefix='ld'):
+        self.c = c
+        self.prefix = prefix
+        self.table = []      # (entries, ld symbol, det symbol or None)
+
+    def _find(self, M):
+        M = np.asarray(M)
+        ents = M._flat()
+        for row in self.table:
+            if len(row[0]) == len(ents) and all(stubs.same_terms(a, b) is True for a, b in zip(row[0], ents)):
+                return row
+        ld = core.SymReal(self.c.fresh_real(self.prefix))
+        row = [ents, ld, None]
+        self.table.append(row)
+        n = 1 if M.ndim == 0 else M.shape[0]
+        # witness/counterexample normalisation hint: M = s*I for a scale s whose ln is
+        # (to 12 digits) known, and ln det M = n ln s -- then the real build, which
+        # computes the true ln det, follows the same path as the engine
+        import math
+        from fractions import Fraction
+        alts = []
+        for sc in (1, 2, 3, 4, 5, 6, 8, 12, 16, 24, 32, 64):
+            approx = Fraction(round(n * math.log(sc) * 10 ** 12), 10 ** 12)
+            h = [R(ld) == core._const_real(approx)]
+            for i in range(n):
+                for j in range(n):
+                    v = ents[i * n + j]
+                    if isinstance(v, core.Sym):
+                        h.append(R(v) == (sc if i == j else 0))
+            alts.append(z3.And(*h))
+        self.c.norm_hints.append(z3.Or(*alts))
+        return row
+
+    def logdet(self, M):
+        return self._find(M)[1]
+
+    def slogdet(self, M):
+        return (1.0, self._find(M)[1])
+
+    def det(self, M):
+        row = self._find(M)
+        if row[2] is None:
+            d = self.c.fresh_real('det')
+            self.c.assume(d > 0)
+            self.c.logs.append((d, R(row[1])))
+            row[2] = core.SymReal(d)
+        return row[2]
+
+
+def assume_diag_dominant(c, M):
+    """A linear sufficient condition for positive definiteness."""
+    n = M.shape[0]
+    for i in range(n):
+        off = [R(abs(M[i, j])) for i2 in [i] for j in range(n) if j != i]
+        c.assume(R(M[i, i]) >= 1 + (z3.Sum(off) if off else 0))
